@@ -36,6 +36,18 @@ def check(res):
             res.violation("oracle:result-differs", "a thread obtained results that differ from the same program run alone",
                           {"threads": t, "rounds": r, "stdout": p.stdout[-1500:], "rerun": "build/<hash>/tsan/threads_driver %d %d %d" % (t, r, res.seed)})
             break
+    # Lexicons created and destroyed by one thread in one reused storage slot, populated by another, long-lived thread (ASan build)
+    hexe = build_driver("threads_driver", "asan")
+    hp = run([hexe, "handover", "8" if res.tier == "quick" else "200"], timeout=1800, env=SAN_ENV)
+    hm = re.search(r"handover jobs=(\d+) done=(\d+) wrong=(\d+)", hp.stdout)
+    if hp.returncode != 0 or not hm:
+        keys = True
+        res.violation("oracle:handover-crash", "a worker thread populating Lexicons that another thread creates and destroys in one reused storage slot ended in a sanitizer report / crash "
+                      "(something of a destroyed Lexicon reached the next one)", {"stderr": hp.stderr[:3500], "rerun": "build/<hash>/asan/threads_driver handover 8"})
+    elif hm.group(3) != "0" or hm.group(1) != hm.group(2):
+        keys = True
+        res.violation("oracle:handover", "a worker thread populating Lexicons handed over in one reused storage slot read back wrong spellings or nodes: " + hm.group(0),
+                      {"stdout": hp.stdout[-500:], "rerun": "build/<hash>/asan/threads_driver handover 8"})
     if not all(status.values()) and not keys:
         bad = [s for s in f["statics"] if not (s["constexpr"] or s["const"]) or s["thread_local"] or s.get("mutable_members")]
         if bad:
